@@ -119,6 +119,14 @@ def gen_cases(ctx):
                 script = [["cmd", 3, [[[3, 2, False]]]]]
                 prefix = [A] * 5 + [EMIT] + [R] * 3 + [TICK] * nt + [A] * spin + [W] * 4 + [R] * 4
                 cases.append(mk_case(cfg, script, [[[0, 1, True]]], prefix=prefix, kind="late-answer", meta=["ok"]))
+    # a chatty interface and no connector: the reader runs far ahead of the caller (the response is queued,
+    # then hundreds of notifications, before the caller dequeues anything)
+    for nn in ((260, 600) if ctx.thorough else (260,)):
+        cfg = {"conn": False, "virt": False, "tmo": 3}
+        script = [["cmd", 3, [[[3, 1, False]]]]]
+        spont = [[[0, i + 2, True]] for i in range(nn)]
+        prefix = [A] * 3 + [W] * 4 + [R] * 3 + ([EMIT] + [R] * 3) * nn
+        cases.append(mk_case(cfg, script, spont, prefix=prefix, kind="chatty-no-connector", meta=["ok"], cap=40 * nn + 3000))
     # the queue-not-empty timeout scenario in every configuration (the defect repaired by `fix:`)
     for conn in (True, False):
         for virt in (False, True):
@@ -298,6 +306,18 @@ def oracle(case, res):
         if obs["delivered"] != exp_deliv[:len(obs["delivered"])] or (quiet_v and obs["delivered"] != exp_deliv):
             out.append(("virtual device: what the handlers emitted (other than the commands' own responses) did not reach the connector exactly once in order",
                         exp_deliv, obs["delivered"]))
+    # nothing is ever discarded: at quiescence every message the interface emitted has been returned by a
+    # command, handed to the connector, or is still pending in the device's queue
+    settled = (not res["capped"]) and obs["adone"] and not obs["events"] and info["wire_left"] == 0 \
+        and info["spont_left"] == 0 and info["pending"].get("R", "dev.read") == "dev.read" and info["in_q"] == 0 \
+        and (not cfg["conn"] or info["pending"].get("C", "").endswith(".get"))
+    if settled:
+        acc = [list(r[1:4]) for r in obs["returned"] if r[0] == "ok"] + obs["delivered"] + obs["out_q"]
+        em = [list(f) for f in info["emitted"]]
+        if sorted(map(tuple, acc)) != sorted(map(tuple, em)):
+            lost = [m for m in em if m not in acc]
+            out.append(("a message the interface emitted was discarded: neither returned by a command, nor handed to the connector, nor pending in the device queue",
+                        "every emitted message accounted for", {"missing": lost[:10], "extra": [m for m in acc if m not in em][:10]}))
     # a silent command must end with the timeout error
     if distinct:
         for i, r in enumerate(obs["returned"]):
@@ -380,7 +400,7 @@ def run(ctx):
         if "error" in res:
             continue
         t = U.c_case(case, res)
-        if t is None or len(t) > 60000:
+        if t is None or len(t) > 200000:
             skipped += 1
             continue
         terms.append(t)
